@@ -35,6 +35,9 @@ pub struct ChannelQueue {
   receive_waiters: VecDeque<Ref<ChannelWaiter>>,
 }
 
+/// The most slots a buffered queue reserves when it is created
+const MAX_RESERVED_SLOTS: usize = 256;
+
 impl ChannelQueue {
   /// Create a synchronous channel queue
   /// that is immediately ready
@@ -56,7 +59,8 @@ impl ChannelQueue {
     assert!(capacity > 0, "ChannelQueue must be positive");
 
     Self {
-      queue: VecDeque::with_capacity(capacity),
+      // the buffer grows on demand, a huge capacity is not reserved up front
+      queue: VecDeque::with_capacity(capacity.min(MAX_RESERVED_SLOTS)),
       capacity,
       state: ChannelQueueState::Ready,
       kind: ChannelQueueKind::Buffered,
